@@ -267,7 +267,7 @@ RIME_DEPRECATED Bool RimeGetContext(RimeSessionId session_id,
           context->select_labels = new char*[page_size];
           for (size_t i = 0; i < (size_t)page_size; ++i) {
             an<ConfigValue> value = select_labels->GetValueAt(i);
-            string label = value->str();
+            string label = value ? value->str() : string();
             context->select_labels[i] = new char[label.length() + 1];
             std::strcpy(context->select_labels[i], label.c_str());
           }
